@@ -156,6 +156,7 @@ fn main() {
         "C18" => { vh::c18::check(&rep); rep.finish(vh::c18::RULE, vh::c18::ASSUME, vh::c18::SITUATIONS) }
         "C17" => { vh::c17::check(&rep); rep.finish(vh::c17::RULE, vh::c17::ASSUME, vh::c17::SITUATIONS) }
         "C07" => { vh::c07::check(&rep); rep.finish(vh::c07::RULE, vh::c07::ASSUME, vh::c07::SITUATIONS) }
+        "C09" => { vh::c09::check(&rep); rep.finish(vh::c09::RULE, vh::c09::ASSUME, vh::c09::SITUATIONS) }
         _ => { eprintln!("unknown property {}", id); 2 }
     };
     std::process::exit(code);
